@@ -242,6 +242,21 @@ def check(case):
         if not e <= TOL_ZERO:
             fail(f"{name} at a reference set with set_reference_strains vs 0", f"|{name}| = {e:.3e} at the new reference '{other}'",
                  {"new_reference": other, "value": e, "tol": TOL_ZERO})
+    if not case["mixed"] and not case["cons"] and hasattr(rod, "eval_strains"):
+        # the rod's own strain / sectional-force read-out (post-processing, stress export) follows the new reference too (seeded C10-m)
+        for xi in (0.0, 0.3, 0.8, 1.0):
+            try:
+                eG, eK = rod.eval_strains(0.0, Q2[rod.qDOF], None, None, xi)
+                Bn, Bm = rod.eval_stresses(0.0, Q2[rod.qDOF], None, None, xi)
+            except Exception as ex:  # noqa
+                fail("eval_strains / eval_stresses at a reference set with set_reference_strains raises", f"{type(ex).__name__}: {ex}", {"xi": xi})
+                break
+            e = max(_maxabs(eG), _maxabs(eK), _maxabs(Bn), _maxabs(Bm))
+            ev.n += 2
+            stats["max_ref_residual"] = max(stats["max_ref_residual"], e)
+            if not e <= TOL_ZERO:
+                fail("eval_strains / eval_stresses at a reference set with set_reference_strains vs 0", f"max |strain|, |sectional force| = {e:.3e} at xi = {xi}",
+                     {"xi": xi, "value": e, "new_reference": other})
     if system.nla_c:
         # the new reference after a RE-ASSEMBLY: the force form la_c(q) and the compliance form c(q, la_c) of the mixed formulation must
         # still agree at a strained state (precomputed element tables must follow the reference; seeded C26-k)
